@@ -37,6 +37,10 @@ def message_for(ev, w, a, b, c):
         # a = proposed hold (0 or >=3), b = identifier
         assume(0 <= a < 65536 and a != 1 and a != 2)
         assume(1 <= b < 2 ** 32)
+        if cfg.get('extra_caps') == 'addpath-sym':
+            # a valid OPEN may advertise ADD-PATH for any address family (c = afi*256 + safi, symbolic)
+            assume(0 <= c < 65536 * 256)
+            caps = caps + S.cap_param(69, struct.pack('!HBB', c // 256, c % 256, cfg.get('addpath_sr', 3)))
         return S.rfc_open(4, as2, a, b, caps)
     if ev == 'open_badver':
         assume(0 <= a < 256 and a != 4)
